@@ -114,10 +114,10 @@ def doOp (t : Tab) (s : St) (args : List String) : Option (St × String) :=
     | some s' => pure (s', "ok")
     | none => pure (s, "notexistent")
   | ["reopen"] => pure (reopen s, "ok")
-  | ["import", comp, same, written, order] => do
+  | ["import", comp, same, trailing, written, order] => do
     let written ← natList written
     let order ← natList order
-    match importObjs t s written order (comp == "1") (same == "1") with
+    match importObjs t s written order (comp == "1") (same == "1") (trailing == "1") with
     | some s' => pure (s', s!"mapped={showNats (sortNats (if same == "1" then order else written))}")
     | none => pure (s, "inadmissible")
   | ["damage", k, c] => do
